@@ -312,6 +312,12 @@ def concrete_indep():
         return True, f'Independence: percent_point/partial_derivative raises {type(e).__name__}: {e}'
     if u.shape != ys.shape or np.any(u < 0) or np.any(u > 1) or not np.allclose(hv, ys, atol=1e-9):
         return True, f'Independence: y={ys.tolist()} v={vs.tolist()}: u={u.tolist()} h(u,v)={hv.tolist()}'
+    try:
+        smp = np.asarray(c.sample(6), dtype=float)
+        if smp.shape != (6, 2) or np.any(smp < 0) or np.any(smp > 1):
+            return True, f'Independence.sample(6): {smp.tolist()}'
+    except Exception as e:
+        return True, f'Independence.sample raises {type(e).__name__}: {e}'
     return False, ''
 
 
